@@ -32,3 +32,5 @@ def run(ctx):
         voxcamp.run(ctx, "C07", 120 if q else 1200)
         from .. import codecs20       # a table entry of the tree differs from the published one: look for an input that shows it
         codecs20.search(ctx)
+        from .. import shortio        # write () interposed (harness/shortio.c): the closed bytes do not depend on how the OS split a transfer (lean/SfModel/ShortIo.lean)
+        shortio.run(ctx, "C07")
